@@ -57,3 +57,14 @@ bool bidib_config_parse_single_board_segment(yaml_parser_t *parser, t_bidib_boar
 bool bidib_config_parse_single_board_reverser(yaml_parser_t *parser, t_bidib_board *board) {
 	__CPROVER_assert(board != NULL, "C13.nested.section_parsed_for_an_existing_board"); vp_nested_calls++; _Bool e; return e; }
 #endif
+
+#ifndef VP_T_bidib_config_parse_single_train_calibration
+bool bidib_config_parse_single_train_calibration(yaml_parser_t *parser, t_bidib_train *train) {
+	__CPROVER_assert(train != NULL, "C13.nested.train_exists"); vp_nested_calls++; _Bool e;
+	train->calibration = e ? NULL : g_array_sized_new(FALSE, FALSE, sizeof(int), 9); return e; }
+#endif
+#ifndef VP_T_bidib_config_parse_single_train_peripheral
+bool bidib_config_parse_single_train_peripheral(yaml_parser_t *parser, t_bidib_train *train, t_bidib_train_state_intern *train_state) {
+	__CPROVER_assert(train != NULL && train->peripherals != NULL && train_state != NULL && train_state->peripherals != NULL && train_state->id != NULL, "C13.nested.train_lists_exist_when_functions_are_parsed");
+	vp_nested_calls++; t_bidib_train_peripheral_mapping m; m.id = g_string_new("n"); /* heap: the caller releases the list on error */ vp_garray_append1(train->peripherals, &m, sizeof m); _Bool e; return e; }
+#endif
